@@ -51,6 +51,7 @@ type behaviour struct {
 		Mode    string  `json:"mode"`
 		Trigger string  `json:"trigger"`
 		Seg     int     `json:"seg"`
+		Addrs   int     `json:"addrs"`
 		Faults  []fault `json:"faults"`
 	} `json:"cfg"`
 	Syncs []msync `json:"syncs"`
@@ -136,6 +137,10 @@ func replay(b *behaviour, e *env, variant int) (key, detail string, at int, obs 
 	evCh, cancelEv := sub.OnSyncFinished()
 	defer cancelEv()
 	pi := peer.AddrInfo{ID: e.pub.ID, Addrs: []multiaddr.Multiaddr{e.proxy.Addr()}}
+	if b.Cfg.Addrs == 2 {
+		// second address: the publisher itself, without the fault-injecting proxy
+		pi.Addrs = append(pi.Addrs, e.pub.Addrs[0])
+	}
 	e.proxy.Other = func(k int) []byte {
 		x, _ := ch.Store.Get(ch.Cids[k])
 		return x
